@@ -289,7 +289,7 @@ inline std::pair<int, int> thompson(const Ast& a, int i, Nfa& n, size_t limit, b
 }
 
 // subset construction for several labelled NFAs sharing a start (labels: lowest index wins)
-inline bool determinize(const Nfa& n, const std::vector<int>& starts, const std::map<int, int>& accept_label, Dfa& d, size_t state_limit = 20000)
+inline bool determinize(const Nfa& n, const std::vector<int>& starts, const std::map<int, int>& accept_label, Dfa& d, size_t state_limit = 3000)
 {
     auto closure = [&](std::vector<int>& v)
     {
@@ -330,7 +330,7 @@ inline bool determinize(const Nfa& n, const std::vector<int>& starts, const std:
     return true;
 }
 
-inline bool ast_to_dfa(const Ast& a, Dfa& d, size_t nfa_limit = 200000)
+inline bool ast_to_dfa(const Ast& a, Dfa& d, size_t nfa_limit = 20000)
 {
     Nfa n; bool of = false;
     auto se = thompson(a, a.root, n, nfa_limit, of);
@@ -418,6 +418,30 @@ inline bool equivalent(const Dfa& x, const Dfa& y, std::string& witness, size_t 
         }
     }
     return true;
+}
+
+// The library's in-place construction takes time exponential in the outer count for nested {n} over a nullable body
+// ((((b?)?){10}){8} needs minutes). Construction time is not part of any listed property; such patterns are skipped and counted.
+inline bool nullable_node(const Ast& a, int i)
+{
+    const Node& n = a.nodes[size_t(i)];
+    switch (n.k)
+    {
+    case Node::SET: return false; case Node::EPS: case Node::STAR: case Node::OPT: return true;
+    case Node::PLUS: return nullable_node(a, n.a);
+    case Node::REP: return n.n == 0 || nullable_node(a, n.a);
+    case Node::CAT: return nullable_node(a, n.a) && nullable_node(a, n.b);
+    default: return nullable_node(a, n.a) || nullable_node(a, n.b);
+    }
+}
+inline bool construction_explodes(const Ast& a, int i = -2, long outer = 1)
+{
+    if (i == -2) i = a.root;
+    if (i < 0) return false;
+    const Node& n = a.nodes[size_t(i)];
+    long o = outer;
+    if (n.k == Node::REP && n.n > 1) { o = outer * n.n; if (outer > 1 && o > 24 && nullable_node(a, n.a)) return true; }
+    return construction_explodes(a, n.a, o) || construction_explodes(a, n.b, o);
 }
 
 // rendering of a generated AST back to pattern text (with the escapes the syntax needs)
